@@ -484,38 +484,132 @@ theorem vars_of_skeleton {s1 s2 : Slots} (h : skeletonOf s1 = skeletonOf s2) (p 
   simp at this
   exact this.1
 
+/-- the number of variable slots and the slot walk read the skeleton only -/
+theorem totalVars_pickLeg_skeleton {s1 s2 : Slots} (h : skeletonOf s1 = skeletonOf s2) :
+    totalVars s1 = totalVars s2 ∧ ∀ p c, pickLeg s1 p c = pickLeg s2 p c := by
+  induction s1 generalizing s2 with
+  | nil =>
+    cases s2 with
+    | nil => exact ⟨rfl, fun _ _ => rfl⟩
+    | cons y t => simp [skeletonOf] at h
+  | cons x t ih =>
+    cases s2 with
+    | nil => simp [skeletonOf] at h
+    | cons y t2 =>
+      simp only [skeletonOf, List.map_cons, List.cons.injEq] at h
+      obtain ⟨hxy, ht⟩ := h
+      obtain ⟨i1, i2⟩ := ih (s2 := t2) ht
+      cases x with
+      | none =>
+        cases y with
+        | none => exact ⟨by simp only [totalVars]; exact i1, fun p c => by simp only [pickLeg]; exact i2 _ _⟩
+        | some o2 => simp at hxy
+      | some o1 =>
+        cases y with
+        | none => simp at hxy
+        | some o2 =>
+          simp only [Option.map_some, Option.some.injEq, Prod.mk.injEq] at hxy
+          refine ⟨by simp only [totalVars]; rw [hxy.1, i1], fun p c => ?_⟩
+          simp only [pickLeg]; rw [hxy.1, i2]
+
 /-- the start (op position, leg) is a function of the skeleton and the draws only: it does not
 look at any spin value. -/
 theorem loopStart_skeleton {s1 s2 : Slots} (h : skeletonOf s1 = skeletonOf s2) (rs : RS) :
     loopStart s1 rs = loopStart s2 rs := by
+  obtain ⟨h1, h2⟩ := totalVars_pickLeg_skeleton h
   unfold loopStart
-  rw [countOps_eq_occ, countOps_eq_occ, occ_skeleton h]
-  simp only
-  have hn : ∀ a, nthOp s1 a = nthOp s2 a := by intro a; unfold nthOp; rw [occ_skeleton h]
-  rw [hn]
-  cases hp : nthOp s2 (rs.genRange (occ s2).length).1 with
-  | none => rfl
-  | some p =>
-    simp only
-    have hocc := skeleton_occupied h p
-    cases h1 : s1[p]? with
+  rw [h1]
+  simp only [h2]
+
+/-! ### the slot walk: a chain-order bijection onto the legs' variables -/
+
+theorem totalVars_append (a b : Slots) : totalVars (a ++ b) = totalVars a + totalVars b := by
+  induction a with
+  | nil => simp [totalVars]
+  | cons x t ih => cases x <;> simp [totalVars, ih, Nat.add_assoc]
+
+/-- **the slot map in closed form**: draw `a` selects relative variable `r` of the op at `p` iff
+`a` = (number of variable slots of the ops before `p`) + `r` -/
+theorem pickLeg_iff (slots : Slots) (p0 a p r : Nat) :
+    pickLeg slots p0 a = some (p, r) ↔
+      ∃ j op, p = p0 + j ∧ slots[j]? = some (some op) ∧ r < op.vars.length ∧
+        a = totalVars (slots.take j) + r := by
+  induction slots generalizing p0 a with
+  | nil => simp [pickLeg]
+  | cons x t ih =>
+    cases x with
     | none =>
-      cases h2 : s2[p]? with
-      | none => rfl
-      | some y => rw [h1, h2] at hocc; cases y <;> simp [isOcc] at hocc ⊢
-    | some x =>
-      cases h2 : s2[p]? with
-      | none => rw [h1, h2] at hocc; cases x <;> simp [isOcc] at hocc ⊢
-      | some y =>
-        rw [h1, h2] at hocc
-        cases x with
-        | none => cases y <;> simp [isOcc] at hocc ⊢
-        | some o1 =>
-          cases y with
-          | none => simp [isOcc] at hocc
-          | some o2 =>
-            simp only
-            rw [vars_of_skeleton h p o1 o2 h1 h2]
+      simp only [pickLeg]
+      rw [ih]
+      constructor
+      · rintro ⟨j, op, hp, hj, hr, ha⟩
+        exact ⟨j + 1, op, by omega, by simpa using hj, hr, by simpa [totalVars] using ha⟩
+      · rintro ⟨j, op, hp, hj, hr, ha⟩
+        cases j with
+        | zero => simp at hj
+        | succ j => exact ⟨j, op, by omega, by simpa using hj, hr, by simpa [totalVars] using ha⟩
+    | some o =>
+      simp only [pickLeg]
+      split
+      · rename_i hlt
+        constructor
+        · intro h
+          injection h with h; injection h with h1 h2
+          subst h1; subst h2
+          exact ⟨0, o, rfl, rfl, hlt, by simp [totalVars]⟩
+        · rintro ⟨j, op, hp, hj, hr, ha⟩
+          cases j with
+          | zero =>
+            simp only [List.take_zero, totalVars, Nat.zero_add] at ha
+            subst ha; subst hp; rfl
+          | succ j =>
+            simp only [List.take_succ_cons, totalVars] at ha
+            omega
+      · rename_i hge
+        rw [ih]
+        constructor
+        · rintro ⟨j, op, hp, hj, hr, ha⟩
+          refine ⟨j + 1, op, by omega, by simpa using hj, hr, ?_⟩
+          simp only [List.take_succ_cons, totalVars]
+          omega
+        · rintro ⟨j, op, hp, hj, hr, ha⟩
+          cases j with
+          | zero =>
+            simp only [List.getElem?_cons_zero, Option.some.injEq] at hj
+            subst hj
+            simp only [List.take_zero, totalVars, Nat.zero_add] at ha
+            omega
+          | succ j =>
+            refine ⟨j, op, by omega, by simpa using hj, hr, ?_⟩
+            simp only [List.take_succ_cons, totalVars] at ha
+            omega
+
+/-- every draw below the total selects a leg variable (the `unwrap`s of the walk cannot fail) -/
+theorem pickLeg_total (slots : Slots) (p0 a : Nat) (h : a < totalVars slots) :
+    ∃ q, pickLeg slots p0 a = some q := by
+  induction slots generalizing p0 a with
+  | nil => simp [totalVars] at h
+  | cons x t ih =>
+    cases x with
+    | none => simp only [pickLeg]; exact ih _ _ (by simpa [totalVars] using h)
+    | some o =>
+      simp only [pickLeg]
+      split
+      · exact ⟨_, rfl⟩
+      · rename_i hge
+        simp only [totalVars] at h
+        exact ih _ _ (by omega)
+
+/-- the slot index of an existing leg variable is below the total -/
+theorem slotIndex_lt (slots : Slots) (p r : Nat) (op : Op) (h : slots[p]? = some (some op))
+    (hr : r < op.vars.length) : totalVars (slots.take p) + r < totalVars slots := by
+  have hs : slots = slots.take p ++ some op :: slots.drop (p + 1) := by
+    obtain ⟨hl, he⟩ := List.getElem?_eq_some_iff.mp h
+    rw [← he, ← List.drop_eq_getElem_cons hl, List.take_append_drop]
+  conv => rhs; rw [hs]
+  rw [totalVars_append]
+  simp only [totalVars]
+  omega
 
 /-- `occ` is strictly increasing, hence the k-th occupied slot is a bijection
 `{0..n-1} → occupied positions` -/
